@@ -23,7 +23,7 @@
      that satisfy the decidable predicate [strong_task_ok t] / [ext_task_ok t] of
      Model/TaskPremises.v:
        * the variables of the programs have non-empty names (parser image; tau* would bind "");
-       * strong equivalence: the representation is tau* (mu: C09_strong_task_text_partial);
+       * strong equivalence: nothing else (both representations, tau-star and mu, are covered);
        * external equivalence: every formula of a specification (.spec) and every assumption of
          the user guide is a SENTENCE.  anthem neither checks nor closes them: `spec: p(X).` is
          accepted and printed `tff(.., conjecture, p(X_g)).`, which tptp4X rejects ("Unquantified
@@ -128,17 +128,6 @@ Theorem C09_external_task_reads_as_emit :
 Proof. exact ext_task_reads. Qed.
 Print Assumptions C09_external_task_reads_as_emit.
 
-(* mu representation: conditional on the representation step delivering parser-image sentences
-   ([repr_sentences]; proved for tau*, not for the natural translation) *)
-Theorem C09_strong_task_text_partial :
-  forall (fuel : nat) (t : strong_task) (pbs : list problem) (pb : problem),
-  repr_sentences t (st_left t) -> repr_sentences t (st_right t) ->
-  strong_decompose_full_fuel fuel t = SOk pbs -> In pb pbs -> ~ IdentClass pb ->
-  exists (txt : string) (tp : tff_problem),
-    problem_display pb = Some txt /\ read_problem txt = Some tp /\ wt_problem tp = true.
-Proof. exact strong_task_text_partial. Qed.
-Print Assumptions C09_strong_task_text_partial.
-
 (* ============================ C06_task_meaning ============================
    Every formula of every emitted problem: its printed tokens are read back as ONE formula whose
    truth, under the signature the problem's own declarations determine, is that of the source
@@ -212,6 +201,23 @@ Proof.
     by (vm_compute in E; injection E as <-; split; vm_compute; reflexivity).
   destruct Hid as [Hid Hlen]. split; [exact Hlen|]. split; [exact Hid|].
   intros pb Hpb. apply (C09_strong_task_text classic_fuel s1 pbs pb); [vm_compute; reflexivity|exact E|exact Hpb|].
+  rewrite forallb_forall in Hid. unfold IdentClass, C09.IdentClass. rewrite (Hid pb Hpb). discriminate.
+Qed.
+
+(* the same pair with the mu representation (regular rules go through the natural translation) *)
+Definition s1mu : strong_task := mkstrong C03full.c_lp C03full.d_lp DIndependent DUniversal ReprMu true true.
+Example C09_ex_strong_task_mu :
+  strong_task_ok s1mu = true /\
+  exists pbs, strong_decompose_full s1mu = SOk pbs /\ pbs <> [] /\ forallb ident_ok pbs = true /\
+    forall pb, In pb pbs -> emitted_ok pb.
+Proof.
+  split; [vm_compute; reflexivity|].
+  destruct (strong_decompose_full s1mu) as [pbs| |] eqn:E; try (vm_compute in E; discriminate).
+  exists pbs. split; [reflexivity|].
+  assert (Hid : forallb ident_ok pbs = true /\ pbs <> [])
+    by (vm_compute in E; injection E as <-; split; [vm_compute; reflexivity|discriminate]).
+  destruct Hid as [Hid Hne]. split; [exact Hne|]. split; [exact Hid|].
+  intros pb Hpb. apply (C09_strong_task_text classic_fuel s1mu pbs pb); [vm_compute; reflexivity|exact E|exact Hpb|].
   rewrite forallb_forall in Hid. unfold IdentClass, C09.IdentClass. rewrite (Hid pb Hpb). discriminate.
 Qed.
 
